@@ -62,6 +62,9 @@ func waitSubscribed(h *brokerHarness, n int) bool {
 // every subscriber keeps reading, for every back-end.
 func c09Progress(r *kit.Run, idx int64, rng *rand.Rand) {
 	cfg := drawBrokerCfg(rng, idx/3)
+	if cfg.Backend == "lifo" || cfg.Backend == "queue-bounded" {
+		cfg.Direct = false // a shedding back-end (evicting deque, bounded queue whose Add refuses) needs the counting wrapper to know what was accepted
+	}
 	procs := brokerProcs(cfg, kit.ProcsFor(idx/18))
 	burst := []int{1, 2, 10, 100}[rng.IntN(4)]
 	bursts := 1 + rng.IntN(4)
@@ -125,6 +128,11 @@ func c09Progress(r *kit.Run, idx int64, rng *rand.Rand) {
 				return false
 			}
 			pop := int(h.popped.Load())
+			if cfg.Direct {
+				// no counting wrapper: these back-ends do not shed, every
+				// message whose Publish returned is to be dispatched
+				pop = npub * bursts * burst
+			}
 			for _, s := range subs {
 				if len(s.snapshot()) != pop {
 					return false
@@ -179,7 +187,18 @@ func c09Verdict(r *kit.Run, idx int64, cfg brokerCfg, desc any, kind, viol, inco
 func c09Shutdown(r *kit.Run, idx int64, rng *rand.Rand) {
 	cfg := drawBrokerCfg(rng, idx/3)
 	procs := brokerProcs(cfg, kit.ProcsFor(idx/18))
-	point := []string{"idle", "mid-dispatch(non-reading subscriber)", "mid-publish", "backlog"}[rng.IntN(4)]
+	point := []string{"idle", "mid-dispatch(non-reading subscriber)", "mid-publish", "backlog", "filling a buffered subscription with several workers"}[rng.IntN(5)]
+	if point[0] == 'f' {
+		// several dispatch workers race for the last free slots of a
+		// subscription buffer that nobody drains (Deque back-ends excluded:
+		// their idle workers spin, DESIGN 3.3)
+		cfg.Backend = []string{"channel", "queue-unlimited", "queue-bounded"}[rng.IntN(3)]
+		cfg.Buffer = []int{1, 2, 3, 8}[rng.IntN(4)]
+		cfg.Workers = []int{2, 4, 8}[rng.IntN(3)]
+		cfg.Parallel = true
+		cfg.Cap = 64
+		procs = brokerProcs(cfg, []int{4, 16}[rng.IntN(2)])
+	}
 	how := []string{"Stop", "cancel-parent"}[rng.IntN(2)]
 	waitFirst := rng.IntN(2) == 0
 	desc := map[string]any{"mode": "shutdown", "config": cfg, "stop_point": point, "how": how, "wait_started_before_stop": waitFirst, "gomaxprocs": procs}
@@ -205,6 +224,14 @@ func c09Shutdown(r *kit.Run, idx int64, rng *rand.Rand) {
 				n = 3 + rng.IntN(8)
 			}
 			for k := 0; k < n; k++ {
+				d := make(chan struct{})
+				pubDone = append(pubDone, d)
+				go func(k int) { h.b.Publish(h.ctx, uint32(k+1)); close(d) }(k)
+			}
+		case "filling a buffered subscription with several workers":
+			idleCh = h.b.Subscribe(h.ctx) // nobody reads it
+			waitSubscribed(h, 1)
+			for k := 0; k < cfg.Buffer+cfg.Workers+2+rng.IntN(4); k++ {
 				d := make(chan struct{})
 				pubDone = append(pubDone, d)
 				go func(k int) { h.b.Publish(h.ctx, uint32(k+1)); close(d) }(k)
